@@ -3,13 +3,16 @@ module verif/simrt
 go 1.26
 
 require (
+	buf.build/gen/go/bufbuild/protovalidate/protocolbuffers/go v1.36.11-20260209202127-80ab13bee0bf.1
+	buf.build/go/protovalidate v0.0.0
 	github.com/SebastienMelki/sebuf v0.0.0
 	github.com/anishathalye/porcupine v1.3.0
 	google.golang.org/protobuf v1.36.11
 	pgregory.net/rapid v1.3.0
-	buf.build/go/protovalidate v0.0.0
-	buf.build/gen/go/bufbuild/protovalidate/protocolbuffers/go v1.36.11-20260209202127-80ab13bee0bf.1
+	sigs.k8s.io/yaml v1.6.0
 )
+
+require go.yaml.in/yaml/v2 v2.4.2 // indirect
 
 replace github.com/SebastienMelki/sebuf => /repo
 
